@@ -243,6 +243,13 @@ func (s *Properties) Merge(other *Properties) {
 		s.Map = make(map[string]any, len(other.Map))
 	}
 	for otherKey, otherValue := range other.Map {
+		// A key deleted on this instance stays deleted unless other explicitly modified it
+		if _, deleted := s.Deleted[otherKey]; deleted {
+			if _, modified := other.Modified[otherKey]; !modified {
+				continue
+			}
+		}
+
 		s.Map[otherKey] = otherValue
 	}
 
